@@ -1047,6 +1047,19 @@ class Interp:
                                 env.update(saved)
                                 del self.path.effects[before + j + 1:]
                                 raise _Raise("caught:" + cls, (eff[1],), s)
+            # a subscript load may raise KeyError/IndexError into a handler
+            # that names it
+            if any(isinstance(x, ast.Subscript) and isinstance(x.ctx, ast.Load)
+                   for x in ast.walk(s)):
+                for h in st.handlers:
+                    for cls in self._handler_names(h):
+                        if cls in ("KeyError", "LookupError", "IndexError"):
+                            if self.decide(("raises", ("free", "subscript in "
+                                                       + src(s)[:60]), cls)):
+                                env.clear()
+                                env.update(saved)
+                                del self.path.effects[before:]
+                                raise _Raise("caught:" + cls, (), s)
             if pending is not None:
                 raise pending
 
